@@ -304,6 +304,17 @@ fn h1_box(prop: &str, thorough: bool) -> Vec<(Body, usize)> {
             }
         }
     }
+    if !thorough && prop == "C08" {
+        // queue length 3 with one worker (otherwise thorough only): few sets, so that the reader stops
+        // while data sets are still being handed over
+        for s in [1usize, 2] {
+            let base = H1 { threads: 1, queue: 3, sets: s, err_at: None, consumer: Consumer::Drain, reader_init_fails: false, dataset_init_fail_at: None, plain: false };
+            v.push((Body::H1(base.clone()), 1));
+            v.push((Body::H1(H1 { consumer: Consumer::StopAfter(1), ..base.clone() }), 1));
+            v.push((Body::H1(H1 { err_at: Some(s - 1), ..base.clone() }), 1));
+            v.push((Body::H1(H1 { err_at: Some(s - 1), consumer: Consumer::StopAtError, ..base.clone() }), 1));
+        }
+    }
     if !thorough && prop == "C07" {
         // queue length 3 (otherwise thorough only): one worker, three and four sets, one preemption -
         // the single-worker order must hold with a long queue as well
